@@ -200,6 +200,7 @@ def prop_C08(run):
     rules_idx.sk_provider(run)
     rules_idx.sk_match_locals(run)
     rules_idx.sk_instruction_flag(run)
+    rules_idx.matcher_candidate_order(run)      # both matchers hand over candidates in declaration order (F75)
     run.rules_run += ["GATE who-touches audit of the two optimisation switches", "FIX3", "TAB-idx writer/reader/matcher agreement of the rule-prefix index", "SK conservativeness of is_value_statically_known per Expr variant"]
 
 
